@@ -704,6 +704,66 @@ impl<A: Float> PolytopeG<A> {
         }
 //@end
 
+//@fn src/linalg/affine.rs | impl<A: Float> PolytopeG<A> | hyperrectangle
+//@bodysub for (idx, (lower, upper)) in intervals.iter().enumerate() { => let mut idx: usize = 0; while idx < intervals.len() { let lower = &intervals[idx].0; let upper = &intervals[idx].1;
+//@bodysub Self::place_axis_bounds(2 * idx, &mut mat, &mut bias, idx, *lower, *upper); => Self::place_axis_bounds(2 * idx, &mut mat, &mut bias, idx, *lower, *upper); idx += 1;
+//@spec
+    requires 2 * intervals@.len() <= usize::MAX,
+        forall|i: int| 0 <= i < intervals@.len() ==> fle_spec((#[trigger] intervals@[i]).0, intervals@[i].1) && !intervals@[i].0.nan() && !intervals@[i].1.nan(),
+    ensures r.ok(), r.mat.ncols() == intervals@.len(),
+        // exactly the points whose every component lies between its (finite) bounds
+        forall|x: V| x.len() == intervals@.len() ==> (#[trigger] r.sat(x) <==> forall|i: int| 0 <= i < intervals@.len() ==>
+            ((#[trigger] intervals@[i]).0.inf() || intervals@[i].0.rv() <= x[i]) && (intervals@[i].1.inf() || x[i] <= intervals@[i].1.rv())),
+//@hint start
+        broadcast use axiom_array2_shape;
+//@loop 1
+            invariant
+                dim == intervals@.len(), 2 * dim <= usize::MAX, 0 <= idx <= dim,
+                mat.nrows() == 2 * dim, mat.ncols() == dim, bias.v().len() == 2 * dim,
+                forall|i: int| 0 <= i < intervals@.len() ==> fle_spec((#[trigger] intervals@[i]).0, intervals@[i].1) && !intervals@[i].0.nan() && !intervals@[i].1.nan(),
+                forall|k: int| 2 * idx <= k < 2 * dim ==> #[trigger] mat.m()[k] == vconst(dim as int, 0real),
+                forall|i: int| 0 <= i < idx ==> axis_row_ok(#[trigger] mat.m()[2 * i], bias.v()[2 * i], dim as int, i, 0real - 1real, intervals@[i].0.rv(), intervals@[i].0.inf())
+                    && axis_row_ok(mat.m()[2 * i + 1], bias.v()[2 * i + 1], dim as int, i, 1real, intervals@[i].1.rv(), intervals@[i].1.inf()),
+            decreases dim - idx
+//@hint loop 1 start
+            let ghost m0 = mat.m();
+            let ghost b0 = bias.v();
+//@hint loop 1 end
+            proof {
+                assert forall|i: int| 0 <= i < idx implies axis_row_ok(#[trigger] mat.m()[2 * i], bias.v()[2 * i], dim as int, i, 0real - 1real, intervals@[i].0.rv(), intervals@[i].0.inf())
+                    && axis_row_ok(mat.m()[2 * i + 1], bias.v()[2 * i + 1], dim as int, i, 1real, intervals@[i].1.rv(), intervals@[i].1.inf()) by {
+                    if i < idx - 1 { assert(mat.m()[2 * i] == m0[2 * i] && mat.m()[2 * i + 1] == m0[2 * i + 1]); }
+                }
+            }
+//@hint loop 1 after
+        proof {
+            let m = mat.m(); let b = bias.v();
+            assert forall|x: V| x.len() == dim implies
+                ((forall|k: int| 0 <= k < 2 * dim ==> dotp(#[trigger] m[k], x, x.len() as int) <= b[k]) <==>
+                 forall|i: int| 0 <= i < dim ==> ((#[trigger] intervals@[i]).0.inf() || intervals@[i].0.rv() <= x[i]) && (intervals@[i].1.inf() || x[i] <= intervals@[i].1.rv())) by {
+                if forall|k: int| 0 <= k < 2 * dim ==> dotp(#[trigger] m[k], x, x.len() as int) <= b[k] {
+                    assert forall|i: int| 0 <= i < dim implies ((#[trigger] intervals@[i]).0.inf() || intervals@[i].0.rv() <= x[i]) && (intervals@[i].1.inf() || x[i] <= intervals@[i].1.rv()) by {
+                        lemma_axis_row(m[2 * i], b[2 * i], dim as int, i, 0real - 1real, intervals@[i].0.rv(), intervals@[i].0.inf(), x);
+                        lemma_axis_row(m[2 * i + 1], b[2 * i + 1], dim as int, i, 1real, intervals@[i].1.rv(), intervals@[i].1.inf(), x);
+                        assert(dotp(m[2 * i], x, x.len() as int) <= b[2 * i]);
+                        assert(dotp(m[2 * i + 1], x, x.len() as int) <= b[2 * i + 1]);
+                        assert((0real - 1real) * x[i] == -x[i] && (0real - 1real) * intervals@[i].0.rv() == -intervals@[i].0.rv() && 1real * x[i] == x[i] && 1real * intervals@[i].1.rv() == intervals@[i].1.rv()) by(nonlinear_arith);
+                    }
+                }
+                if forall|i: int| 0 <= i < dim ==> ((#[trigger] intervals@[i]).0.inf() || intervals@[i].0.rv() <= x[i]) && (intervals@[i].1.inf() || x[i] <= intervals@[i].1.rv()) {
+                    assert forall|k: int| 0 <= k < 2 * dim implies dotp(#[trigger] m[k], x, x.len() as int) <= b[k] by {
+                        let i = k / 2;
+                        assert(((intervals@[i]).0.inf() || intervals@[i].0.rv() <= x[i]) && (intervals@[i].1.inf() || x[i] <= intervals@[i].1.rv()));
+                        lemma_axis_row(m[2 * i], b[2 * i], dim as int, i, 0real - 1real, intervals@[i].0.rv(), intervals@[i].0.inf(), x);
+                        lemma_axis_row(m[2 * i + 1], b[2 * i + 1], dim as int, i, 1real, intervals@[i].1.rv(), intervals@[i].1.inf(), x);
+                        assert((0real - 1real) * x[i] == -x[i] && (0real - 1real) * intervals@[i].0.rv() == -intervals@[i].0.rv() && 1real * x[i] == x[i] && 1real * intervals@[i].1.rv() == intervals@[i].1.rv()) by(nonlinear_arith);
+                        if k == 2 * i { } else { assert(k == 2 * i + 1); }
+                    }
+                }
+            }
+        }
+//@end
+
 //@fn src/linalg/affine.rs | impl<A: Float> PolytopeG<A> | axis_bounds
 //@spec
     requires axis < dim, fle_spec(lower_bound, upper_bound), !lower_bound.nan(), !upper_bound.nan()
